@@ -145,6 +145,12 @@ def _read(kind, fp, cid_hint_scales):
     raise KeyError(kind)
 
 
+def _flag(on, k):
+    """the overwrite flag in the forms a caller may hold it in: the bool singletons, numpy booleans, 0 / 1"""
+    on = bool(on)
+    return [on, np.bool_(on), int(on), np.any(np.array([on])), on][k % 5]
+
+
 def _native_values(kind, obj):
     if kind in ("Mask2D", "Mask1D"):
         return np.asarray(obj).astype(bool)
@@ -191,7 +197,7 @@ def execute(history, contents, pathids):
                 ok = True
                 err = ""
                 try:
-                    _obj(ev["c"]).output_to_fits(file_path=fp, overwrite=bool(ev["ow"]))
+                    _obj(ev["c"]).output_to_fits(file_path=fp, overwrite=_flag(ev["ow"], len(recs)))
                 except Exception as e:  # the error path is an outcome, not a crash
                     ok = False
                     err = type(e).__name__
@@ -284,7 +290,7 @@ def execute(history, contents, pathids):
                     fps[pid] = parts[0] if len(parts) == 1 else os.path.join(root, *parts)
                 try:
                     ds = aa.Imaging(data=_obj(ev["cd"]), noise_map=_obj(ev["cn"]), psf=_obj(ev["ck"]), check_noise_map=False)
-                    ds.output_to_fits(data_path=fps["img_data"], psf_path=fps["img_psf"], noise_map_path=fps["img_noise"], overwrite=bool(ev["ow"]))
+                    ds.output_to_fits(data_path=fps["img_data"], psf_path=fps["img_psf"], noise_map_path=fps["img_noise"], overwrite=_flag(ev["ow"], len(recs)))
                 except Exception as e:
                     ok, err = False, type(e).__name__
                 r["ok"], r["err"] = ok, err
